@@ -2,3 +2,6 @@ import TdfProofs.Lemmas.Bytes
 import TdfProofs.Lemmas.Dec
 import TdfProofs.Lemmas.Str
 import TdfProofs.Properties.C13
+import TdfProofs.Lemmas.Rle
+import TdfProofs.Lemmas.Blocks
+import TdfProofs.Lemmas.RoundTrip
